@@ -1,5 +1,9 @@
 """C01 — mutex and spinlock: mutual exclusion, trylock, visibility.
 
+input space exercised (audit): back-ends c11 / sync / sim / posix; 1..4 lock objects; main thread + 1 or 2 helper threads in
+the line protocol, 3..16 threads in the real-thread programs; NULL arguments; every native return code of CODES in every
+position (scripted); init attribute / foreign mutex address made visible by the scripted wrappers.
+
 proof:  PV.Props.C01 over the records generated from pspinlock-{c11,sync,sim}.c and pmutex-posix.c
 tie:    harness/locks.c: (i) single-thread lock / trylock / unlock sequences (+ a second thread that must block)
         on the real c11 / sync / sim spinlocks and the posix mutex vs. `pvdriver locks`;
@@ -177,7 +181,7 @@ def quick_plan(variants):
     """real threads in every run (a few seconds): exclusion, two objects, the mutex"""
     plan = []
     for v in variants:
-        scale = 4 if v == "sim" else 1
+        scale = 2 if v == "sim" else 1
         plan += [(v, "hcounter", [4, 40000 // scale]), (v, "counter", [3, 30000 // scale]), (v, "twolocks", [3, 15000 // scale])]
     plan += [("c11", "hcounter", [4, 100000], "plain"), ("c11", "mcounter", [4, 20000]), ("c11", "mtwolocks", [3, 10000])]
     return plan
@@ -196,7 +200,7 @@ def run(chk):
     fams = {}
     for v in REAL + ["posix-script"]:
         try:
-            fams[v] = ac.VFamily("locks", ac.build_locks(cfg, v), v, timeout=180)
+            fams[v] = ac.VFamily("locks", ac.build_locks(cfg, v), v, timeout=60)
         except pv.BuildError as e:
             chk.violation(str(e), "C01 harness for %s does not build against the current source" % v, no_input=True, suffix="txt")
     depth = 9 if thorough else 7
@@ -247,10 +251,15 @@ def run(chk):
         pass
     chk.cov["rule"] = ("(i) per implementation (c11, sync, sim spinlock; posix mutex) all legal single-thread sequences of lock / try / unlock up to %d ops "
                        "(lock only on a free lock, unlock only by the holder), random longer ones, and `contend` probes where a second real thread calls lock on the "
-                       "held lock and must still be blocked after 150 ms; return values (and the lock word for c11 / sync) compared after every op. "
+                       "held lock and must still be blocked after 150 ms; return values (and the lock word for c11 / sync) compared after every op; "
+                       "the same ops on four objects (`lock K` …; all legal sequences over two objects up to %d ops, random ones over four), NULL arguments, "
+                       "`tother K` (a second thread's single trylock on a held / free object) and `contend2 K` (two more threads waiting in lock: three threads, "
+                       "shadow holder count). "
                        "(ii) pmutex-posix.c with pthread_mutex_{init,lock,trylock,unlock,destroy} wrapped at link time: every code of %s in every position of all "
                        "(op, code) pairs of length 2 after every init code, plus random scripts; wrapper result and the native function called are compared. "
-                       "distinct by op-file hash, non-trivial = more than one op") % (depth, CODES)
+                       "(iii) real threads in every run: counter / shadow-holder-count / two-lock programs on every back-end (ThreadSanitizer for c11 and sim, "
+                       "gcc -O2 value oracles for sync and once more for c11), larger in the thorough tier. "
+                       "distinct by op-file hash, non-trivial = more than one op") % (depth, 5 if thorough else 4, CODES)
     chk.cov["exhaustive"] = False
     chk.assumptions += [
         "hardware and compiler implement __atomic_compare_exchange_n / __atomic_store / __sync_bool_compare_and_swap as indivisible operations with the stated "
